@@ -187,6 +187,38 @@ def build_harness(name, variant="a", sources=None, extra_inc=(), extra_flags=(),
         return exe
 
 
+def build_many(specs):
+    """specs: list of dict(name, variant, sources, extra_inc, extra_flags, extra_objs, extra_link, libs).
+    Compiles everything in one parallel batch, then links; returns exe paths in order."""
+    with Lock():
+        jobs = {}
+        plans = []
+        ej = engine_job(); jobs[ej[1]] = ej
+        for sp in specs:
+            name = sp["name"]; variant = sp.get("variant", "a")
+            ljobs = []
+            for l in sp.get("libs", ("libgalois",)):
+                ljobs += lib_jobs(variant, l)
+            flags = COMMON + TSAN + VARIANTS[variant] + includes(sp.get("extra_inc", ())) + list(sp.get("extra_flags", ()))
+            hsrcs = sp.get("sources") or [os.path.join(VERIF, "harness", name + ".cpp")]
+            hobjs = []
+            for src in hsrcs:
+                o = os.path.join(BUILD, variant, "harness", name, os.path.basename(src).rsplit(".", 1)[0] + ".o")
+                jobs[o] = (src, o, flags); hobjs.append(o)
+            for j in ljobs:
+                jobs[j[1]] = j
+            objs = hobjs + [ej[1]] + [j[1] for j in ljobs] + list(sp.get("extra_objs", ()))
+            exe = os.path.join(BUILD, variant, "bin", name)
+            plans.append((exe, objs, sp.get("extra_link", ())))
+        run_jobs(list(jobs.values()))
+        out = []
+        for exe, objs, xl in plans:
+            os.makedirs(os.path.dirname(exe), exist_ok=True)
+            link(exe, objs, xl)
+            out.append(exe)
+        return out
+
+
 if __name__ == "__main__":
     v = sys.argv[2] if len(sys.argv) > 2 else "a"
     print(build_harness(sys.argv[1], v))
